@@ -190,6 +190,11 @@ func (g *Gen) exprInt(d int) Expr {
 		return &Bin{Op: "%", A: g.exprInt(d - 1), B: num(float64([]int{2, 3, 5, 7, -3, 10, 256}[g.R.Intn(7)]))}
 	case 4:
 		g.use("pow")
+		if v := g.pickVar(TInt); v != nil && g.R.Bool() {
+			// a run-time power (not folded): small exponent, base reduced so the result stays exact
+			g.use("pow-runtime")
+			return &Bin{Op: "^", A: &Bin{Op: "%", A: g.ref(v), B: num(7)}, B: num(float64(g.R.Range(0, 3)))}
+		}
 		return &Bin{Op: "^", A: num(float64(g.R.Range(-3, 4))), B: num(float64(g.R.Range(0, 5)))}
 	case 5:
 		return &Un{Op: "-", A: g.exprInt(d - 1)}
@@ -216,9 +221,19 @@ func (g *Gen) exprInt(d int) Expr {
 		}
 		return call("math.floor", &Bin{Op: "/", A: g.exprInt(d - 1), B: num(float64([]int{2, 4, 3, 7}[g.R.Intn(4)]))})
 	default:
-		// string coerced to number in arithmetic
+		// string coerced to number in arithmetic (left, right, unary minus; literal and variable)
 		g.use("str-arith-coercion")
-		return &Bin{Op: "+", A: str([]string{"10", "2", " 7 ", "0x10", "-3"}[g.R.Intn(5)]), B: g.exprInt(d - 1)}
+		lit := str([]string{"10", "2", " 7 ", "0x10", "-3"}[g.R.Intn(5)])
+		switch g.R.Intn(4) {
+		case 0:
+			return &Bin{Op: "+", A: lit, B: g.exprInt(d - 1)}
+		case 1:
+			return &Bin{Op: []string{"+", "-", "*"}[g.R.Intn(3)], A: g.exprInt(d - 1), B: lit}
+		case 2:
+			return &Un{Op: "-", A: lit}
+		default:
+			return &Bin{Op: "*", A: &Paren{E: &Bin{Op: "..", A: num(float64(g.R.Range(1, 9))), B: str("0")}}, B: g.exprInt(d - 1)}
+		}
 	}
 }
 
@@ -625,6 +640,7 @@ func (g *Gen) stmt(depth int) []Stmt {
 		b2i(deep) * (f.Closures / 3), // 39 closure identity / nested-block closure
 		b2i(deep) * (f.Meta / 3),     // 40 host __call handler / nil-result comparison handlers
 		b2i(deep) * (f.Coroutines / 3), // 41 wrap error inside coroutine / dead by fault
+		b2i(depth == 0 && g.Uses["constant-index-boundary"] == 0) * 1, // 42 constant index boundary (once per program)
 	}
 	switch g.R.Pick(w...) {
 	case 0:
@@ -753,11 +769,13 @@ func (g *Gen) stmt(depth int) []Stmt {
 			return g.goCallHandler(d)
 		}
 		return g.nilCompareHandlers(d)
-	default:
+	case 41:
 		if g.R.Bool() {
 			return g.wrapErrorInsideCoroutine(d)
 		}
 		return g.deadByFaultClosure(d)
+	default:
+		return g.constBoundary(d)
 	}
 }
 
@@ -900,7 +918,7 @@ func (g *Gen) multiAssign(d int) []Stmt {
 	for b == a {
 		b = locals[g.R.Intn(len(locals))]
 	}
-	switch g.R.Pick(30, 20, 20, 15, 15) {
+	switch g.R.Pick(30, 20, 20, 15, 15, 10) {
 	case 0:
 		g.use("multiassign-swap")
 		return []Stmt{&Assign{LHS: []Expr{g.ref(a), g.ref(b)}, Es: []Expr{g.ref(b), g.ref(a)}}, emit(g.ref(a), g.ref(b))}
@@ -937,6 +955,12 @@ func (g *Gen) multiAssign(d int) []Stmt {
 			return []Stmt{&Assign{LHS: []Expr{x, y}, Es: []Expr{y, x}}, emit(x, y)}
 		}
 		fallthrough
+	case 5:
+		g.use("multiassign-fewer-values")
+		t1, t2, t3 := g.fresh("mv"), g.fresh("mv"), g.fresh("mv")
+		return []Stmt{&Local{Names: []string{t1, t2, t3}, Es: []Expr{num(1), num(2), num(3)}},
+			&Assign{LHS: []Expr{&Var{Name: t1}, &Var{Name: t2}, &Var{Name: t3}}, Es: []Expr{g.exprInt(1)}}, emit(&Var{Name: t1}, &Var{Name: t2}, &Var{Name: t3}),
+			&Assign{LHS: []Expr{&Var{Name: t1}}, Es: []Expr{g.exprInt(1), call("emit", str("extra-rhs-evaluated")), g.exprInt(0)}}, emit(&Var{Name: t1})}
 	default:
 		g.use("multiassign-adjust")
 		// more targets than values (nil fill would break int typing): use 3 values for 2 targets or call expansion
